@@ -231,20 +231,25 @@ class C33(Check):
     assumptions = ["reference = plain Python sieve of Eratosthenes up to 4.2e6",
                    "after an iterator returned a value > its limit it is not used again (that is how every in-tree caller uses it)",
                    "a small Python model of the cache (end of cache, segment size, clear flag) only chooses limits; it is not part of the oracle"]
-    tiers = {"quick": {"examples": 1500}, "thorough": {"examples": 30000}}
+    tiers = {"quick": {"examples": 1500}, "thorough": {"examples": 20000}}
     min_nontrivial = 20
 
     def setup_worker(self, tier):
-        self.kf_seg = False
-        probe = engine.Driver(self.variant, self.exe, 60.0)
+        # Is the segment overflow of Sieve::_extend (report: prime_sieve.cpp:69) present in this tree?  If the probe
+        # cannot be run at all the defect is assumed present (the exclusion only narrows the search).
+        self.kf_seg = True
+        probe = engine.Driver(self.variant, self.exe, 120.0, env={"ASAN_OPTIONS": engine.ASAN_OPTIONS.replace("symbolize=1", "symbolize=0")})
         try:
-            try:
-                probe.run([["sieve_set_size", 1], ["sieve_generate_digest", 20000]])
-            except engine.DriverCrash as e:
-                if "Sieve::_extend" in e.stderr or "heap-buffer-overflow" in e.stderr:
-                    self.kf_seg = True
-                else:
-                    raise
+            for _ in range(2):
+                try:
+                    r = probe.run([["sieve_set_size", 1], ["sieve_generate_digest", 20000]])
+                    if isinstance(r, list) and len(r) == 2 and isinstance(r[1], list):
+                        self.kf_seg = False
+                    break
+                except engine.DriverCrash:
+                    break
+                except (engine.DriverTimeout, OSError):
+                    continue
         finally:
             probe.stop()
 
